@@ -81,31 +81,30 @@ def gen_cases(chk, distinct, stats):
                 distinct.add(yy, m, d, sod)
         return {"a": "days", "y": y, "sod": sod, "fmt": fmt, "full": full, "days": ds}
 
-    # 1. every day of the date system
+    # 1. every day of the date system (the displayed text costs ~0.8 ms per item: quick displays every day
+    #    of 160 selected years, thorough every day of the date system)
+    # 2. the edges of every year, displayed: Jan 1, Feb 28, (Feb 29), Mar 1, Dec 31
     rot = BOUNDARY_SODS + [rng.randrange(86400), rng.randrange(86400)]     # 7 entries: coprime with 4/100/400
+    sel = set(range(1900, 1905)) | {1999, 2000, 2001, 2023, 2024, 2038, 2099, 2100, 2101, 2399, 2400, 9998, 9999}
+    sel |= set(range(2000, 10000, 100))
+    while len(sel) < 160:
+        sel.add(rng.randint(FIRST, LAST))
+    edges = []
     for y in range(FIRST, LAST + 1):
         if thorough:
             r = rng.randrange(86400)
             for sod in (0, 43200, 86399):
                 yield days_case(y, sod, False)
-            yield days_case(y, r if r not in (0, 43200, 86399) else 12345, True)   # display of every day
+            yield days_case(y, r if r not in (0, 43200, 86399) else 12345, True)
         else:
             yield days_case(y, rot[y % 7], False)
-    # 2. display of every day of selected years (quick; thorough displays every day above)
-    if not thorough:
-        sel = set(range(1900, 1905)) | {1999, 2000, 2001, 2023, 2024, 2038, 2099, 2100, 2101, 2399, 2400, 9998, 9999}
-        sel |= set(range(2000, 10000, 100))
-        while len(sel) < 160:
-            sel.add(rng.randint(FIRST, LAST))
-        for y in sorted(sel):
-            yield days_case(y, rng.choice(BOUNDARY_SODS + [rng.randrange(86400)] * 3), True)
-    # 3. the edges of every year, displayed: Jan 1, Feb 28, (Feb 29), Mar 1, Dec 31
-    batch = []
-    for y in range(FIRST, LAST + 1):
-        batch += [[y, 1, 1], [y, 2, 28]] + ([[y, 2, 29]] if is_leap(y) else []) + [[y, 3, 1], [y, 12, 31]]
-        if len(batch) >= 360 or y == LAST:
-            yield days_case(batch[0][0], rng.choice([0, 86399, rng.randrange(86400)]), True, days=batch)
-            batch = []
+            if y in sel:
+                yield days_case(y, rng.choice([s for s in BOUNDARY_SODS if s != rot[y % 7]] +
+                                              [rng.randrange(86400)] * 3), True)
+        edges += [[y, 1, 1], [y, 2, 28]] + ([[y, 2, 29]] if is_leap(y) else []) + [[y, 3, 1], [y, 12, 31]]
+        if len(edges) >= 360 or y == LAST:
+            yield days_case(edges[0][0], rng.choice([0, 86399, rng.randrange(86400)]), True, days=edges)
+            edges = []
     # 4. every second of representative days
     rep = [(1900, 2, 28), (9999, 12, 31)]
     if thorough:
@@ -134,6 +133,13 @@ def describe(case, ev, detail):
     else:
         head = f"seconds {case['from']}..{case['from'] + case['count'] - 1} of {case['y']}-{case['m']}-{case['d']}"
     return f"{head}: {detail}"
+
+
+def excerpt(raw, sl):
+    """an event with a few of its items (as compact JSON text), for the evidence file"""
+    ev = json.loads(raw)
+    ev["items"] = [json.dumps(it, sort_keys=True, separators=(",", ":")) for it in ev["items"][sl]]
+    return ev
 
 
 class RawWorker(vlib.Worker):
@@ -183,13 +189,17 @@ def drive(cases, jobs=12):
 
 
 class LazyEvents:
-    """events[ci] -> [decoded event of case ci] (only violating cases are ever decoded)"""
+    """events[ci] -> [header of the event of case ci], decoded on demand for the replay file of a violating
+    case (the offending item itself is part of the mismatch detail printed by TLC)"""
 
     def __init__(self, raws):
         self.raws = raws
 
     def __getitem__(self, ci):
-        return [json.loads(self.raws[ci])]
+        ev = json.loads(self.raws[ci])
+        if isinstance(ev.get("items"), list):
+            ev["items"] = f"({len(ev['items'])} items)"
+        return [ev]
 
 
 _seq = [0]
@@ -250,8 +260,8 @@ def run(chk):
             cases, rnd = rnd, []
             raws = drive(cases)
             n_items += sum(r.count(b'"c":') for r in raws)
-            first = first or {k: (v[58:61] if isinstance(v, list) else v) for k, v in json.loads(raws[0]).items()}
-            last = {k: (v[-2:] if isinstance(v, list) else v) for k, v in json.loads(raws[-1]).items()}
+            first = first or excerpt(raws[0], slice(58, 61))
+            last = excerpt(raws[-1], slice(-2, None))
             if pending is not None:
                 pending.result()
             pending = validator.submit(validate, chk, cases, raws)
